@@ -137,6 +137,49 @@ theorem tryFrom_eq_fromBytes (bs : List Nat) (d : Decoded) (h : tryFrom bs = .ok
         · cases h
         · exact h
 
+/-- conversely, whatever `from_bytes` accepts is at least as long as its format prescribes, and it is exactly
+    what `try_from` accepts on the first 7 / 14 bytes: `from_bytes` is deku's container read, which hands
+    the unread rest back to the caller — it CONSUMES exactly the prescribed length, it does not require the
+    input to end there.  (So the property's length clause holds of `try_from` literally, `accept_len`, and of
+    `from_bytes` in the sense "consumes exactly 7 or 14 bytes".) -/
+theorem fromBytes_prefix (bs : List Nat) (d : Decoded) (h : fromBytes bs = .ok d) :
+    frameBits (bs.headD 0) / 8 ≤ bs.length ∧ tryFrom (bs.take (frameBits (bs.headD 0) / 8)) = .ok d := by
+  unfold fromBytes at h
+  cases bs with
+  | nil => cases h
+  | cons b0 rest =>
+    simp only [List.headD_cons] at h ⊢
+    split at h
+    · cases h
+    · rename_i hl
+      have hlen : frameBits b0 / 8 ≤ (b0 :: rest).length := by omega
+      refine ⟨hlen, ?_⟩
+      have hpos : 0 < frameBits b0 / 8 := by rw [frameBits_bytes]; split <;> decide
+      cases hd : decodeBuf b0 ((b0 :: rest).take (frameBits b0 / 8)) with
+      | err e => rw [hd] at h; cases h
+      | panic x => rw [hd] at h; cases h
+      | ok v =>
+        rw [hd] at h
+        simp only [Outcome.ok.injEq] at h
+        subst h
+        -- the prefix starts with the same byte and has exactly the prescribed length
+        obtain ⟨k, hk⟩ : ∃ k, frameBits b0 / 8 = k + 1 := ⟨frameBits b0 / 8 - 1, by omega⟩
+        have htake : (b0 :: rest).take (frameBits b0 / 8) = b0 :: rest.take k := by rw [hk, List.take_succ_cons]
+        have hlen' : ((b0 :: rest).take (frameBits b0 / 8)).length = frameBits b0 / 8 := by
+          rw [List.length_take]; omega
+        unfold tryFrom
+        rw [htake] at hd hlen' ⊢
+        simp only []
+        have h1 : ¬ (b0 :: List.take k rest).length < frameBits b0 / 8 := by omega
+        rw [if_neg h1]
+        have htt : (b0 :: List.take k rest).take (frameBits b0 / 8) = b0 :: List.take k rest := by
+          apply List.take_of_length_le; omega
+        rw [htt, hd]
+        simp only []
+        have h2 : ¬ (frameBits b0 / 8 != (b0 :: List.take k rest).length) = true := by
+          simp only [bne_iff_ne, ne_eq, Decidable.not_not]; omega
+        rw [if_neg h2]
+
 /-- **Rendering** (partial — a syntactic obligation, not a semantic model): none of the 39
     `impl fmt::Display` / hand-written `impl fmt::Debug` blocks of the decoder contains an indexing or
     slicing expression, `unwrap`/`expect`, integer arithmetic, a shift, a narrowing cast or a panicking
@@ -147,8 +190,10 @@ theorem render_sites_empty : Gen.Render.riskySites = [] := by decide
 
 theorem render_impls_scanned : 30 ≤ Gen.Render.renderImpls := by decide
 
-/-- determinism: the model is a function (stated for completeness; for the Rust code the harness
-    decodes every input twice and compares both the value and its JSON) -/
+/-- determinism: the MODEL is a function, which says nothing about hidden state in the Rust code; for the
+    implementation this clause is checked by the harness only (every input decoded twice, and the
+    history-determinism oracle: f, a one-byte neighbour g, f again, each compared with its decoding right
+    after unrelated traffic) -/
 theorem deterministic (bs : List Nat) : tryFrom bs = tryFrom bs := rfl
 
 /-! sanity anchors (tests): frames of the repository's own suite -/
